@@ -280,6 +280,32 @@ def dictWriteWord : S Nat := fun s =>
   let (d, cnt) := s.dict.writeBytes s.word
   (.ok cnt, { s with dict := d })
 
+/-- the distance a distance symbol stands for (the `distSym < 16` / direct / long-code cases of
+    `readDistance`); it may be zero or negative (the caller panics then). -/
+def decodeDistance (s : State) (distSym : Nat) : M Int :=
+  if distSym < 16 then
+    let rec_ := distShortLUT.getD distSym default
+    let base := match rec_.1 with | 0 => s.dists0 | 1 => s.dists1 | 2 => s.dists2 | _ => s.dists3
+    pure ((base : Int) + rec_.2)
+  else if distSym < 16 + s.ndirect then pure ((distSym - 15 : Nat) : Int)
+  else do
+    let rec_ := (distLongLUTs.getD s.npostfix #[]).getD (distSym - (16 + s.ndirect)) default
+    let extra ← readBits rec_.extra
+    pure ((s.ndirect + rec_.base + (extra <<< s.npostfix) : Nat) : Int)
+
+/-- the head of `copyStaticDict`: the transformed word for a copy of `cpyLen` bytes from
+    `wordIdx = dist - (HistSize + 1)`. -/
+def staticWord (sd : ByteArray) (cpyLen wordIdx : Nat) : Except BErr (List UInt8) :=
+  if cpyLen < minDictWordLen ∨ cpyLen > maxDictWordLen then .error .corrupted
+  else
+    let index := wordIdx % nwords cpyLen
+    let offset := doffset cpyLen + index * cpyLen
+    let baseWord := (List.range cpyLen).map fun i => sd.get! (offset + i)
+    let transformIdx := wordIdx >>> ndbits.getD cpyLen 0
+    match transforms[transformIdx]? with
+    | none => .error .corrupted
+    | some t => .ok (t.apply baseWord)
+
 /-- the labels of `readCommands`. -/
 inductive Label where
   | startCommand | readLiterals | readDistance | copyDynamicDict | copyStaticDict | finishCommand
@@ -328,16 +354,7 @@ def cmdLoop (sd : ByteArray) : Nat → Label → S Unit
       let cid := getDistContextID s.cpyLen
       let tree := s.distBlk.prefixes.getD (s.distMap.getD (s.distMapOff + cid) 0) {}
       let distSym ← liftR (readSymbol tree)
-      let dist : Int ←
-        if distSym < 16 then
-          let rec_ := distShortLUT.getD distSym default
-          let base := match rec_.1 with | 0 => s.dists0 | 1 => s.dists1 | 2 => s.dists2 | _ => s.dists3
-          pure ((base : Int) + rec_.2)
-        else if distSym < 16 + s.ndirect then pure ((distSym - 15 : Nat) : Int)
-        else do
-          let rec_ := (distLongLUTs.getD s.npostfix #[]).getD (distSym - (16 + s.ndirect)) default
-          let extra ← liftR (readBits rec_.extra)
-          pure ((s.ndirect + rec_.base + (extra <<< s.npostfix) : Nat) : Int)
+      let dist ← liftR (decodeDistance s distSym)
       modS fun s => { s with distZero := decide (distSym = 0), dist := dist.toNat }
       if dist ≤ 0 then spanic .corrupted
     let s ← getS
@@ -354,16 +371,9 @@ def cmdLoop (sd : ByteArray) : Nat → Label → S Unit
   | fuel+1, .copyStaticDict => do
     let s ← getS
     if s.word.isEmpty then do
-      if s.cpyLen < minDictWordLen ∨ s.cpyLen > maxDictWordLen then spanic .corrupted
-      else
-        let wordIdx := s.dist - (s.dict.histSize + 1)
-        let index := wordIdx % nwords s.cpyLen
-        let offset := doffset s.cpyLen + index * s.cpyLen
-        let baseWord := (List.range s.cpyLen).map fun i => sd.get! (offset + i)
-        let transformIdx := wordIdx >>> ndbits.getD s.cpyLen 0
-        match transforms[transformIdx]? with
-        | none => spanic .corrupted
-        | some t => modS fun s => { s with word := t.apply baseWord }
+      match staticWord sd s.cpyLen (s.dist - (s.dict.histSize + 1)) with
+      | .error e => spanic e
+      | .ok w => modS fun s => { s with word := w }
     let cnt ← dictWriteWord
     modS fun s => { s with word := s.word.drop cnt, blkLen := s.blkLen - cnt }
     if !(← getS).word.isEmpty then suspend .staticDict
